@@ -131,6 +131,7 @@ _OBJ_UFUNCS = {
     np.logical_or: np.frompyfunc(_lor, 2, 1),
     np.logical_xor: np.frompyfunc(_lxor, 2, 1),
     np.logical_not: np.frompyfunc(_lnot, 1, 1),
+    np.invert: np.frompyfunc(lambda a: _lnot(a) if isinstance(a, (SymBool, bool, np.bool_)) else ~a, 1, 1),
     np.log: np.frompyfunc(_log, 1, 1),
     np.exp: np.frompyfunc(_exp, 1, 1),
     np.sqrt: np.frompyfunc(_sqrt, 1, 1),
@@ -257,7 +258,7 @@ class SA(np.ndarray):
         return sa_any(self, axis=axis)
 
     def sum(self, axis=None, **k):
-        return _wrap(np.add.reduce(self.view(np.ndarray), axis=axis, dtype=object))
+        return sa_sum(self, axis=axis)
 
     def prod(self, axis=None, **k):
         return _wrap(np.multiply.reduce(self.view(np.ndarray), axis=axis, dtype=object))
@@ -413,8 +414,18 @@ def sa_zeros_like(a, dtype=None, **k):
     return r.view(SA)
 
 
+def _bools_as_bits(a):
+    """numpy sums booleans as integers."""
+    a = _plain(np.asarray(a))
+    if a.dtype == object and any(isinstance(c, (SymBool, bool, np.bool_)) for c in a.reshape(-1)):
+        f = np.frompyfunc(lambda c: c.as_bit() if isinstance(c, SymBool) else
+                          (int(c) if isinstance(c, (bool, np.bool_)) else c), 1, 1)
+        a = f(a)
+    return a
+
+
 def sa_sum(a, axis=None, **k):
-    return _wrap(np.add.reduce(_plain(np.asarray(a)), axis=axis, dtype=object))
+    return _wrap(np.add.reduce(_bools_as_bits(a), axis=axis, dtype=object))
 
 
 def sa_prod(a, axis=None, **k):
